@@ -685,6 +685,8 @@ func c06(r *Run) {
 	c06Helpers(r)
 	nilTreeKeepsRegistry(r, "")
 	c06IncludeMixture(r)
+	c06FallbackOneLookup(r)
+	c06PoolCleanReturn(r)
 	regFreePairings(r, "conc kind=stale ", "after a registration has returned, a lookup by one of the template's names does not give the version registered under it", 4, r.N(2000, 50000))
 	c06DeepIncludes(r)
 	c06ModelTie(r)
@@ -1387,6 +1389,91 @@ func c06IncludeMixture(r *Run) {
 		if got != allOld && got != allNew {
 			r.Violate(sig, "one render contains two versions of an included template that was re-registered while it ran: neither the render alone against the old version nor against the new one",
 				map[string]any{"main": tc.main, "output": got, "alone_against_old": allOld, "alone_against_new": allNew})
+		}
+	}
+}
+
+
+// c06FallbackOneLookup: WriteFallback / RenderFallback look the template up ONCE (one locked lookup over both names) and
+// render what they found: when the first key is registered the fallback is never looked at, whatever the render of
+// the first returns — also "template not found" from an include INSIDE it (a second lookup after a failed render
+// would append the fallback's output to the partial output, and would read the registry twice).
+func c06FallbackOneLookup(r *Run) {
+	defer dyntpl.VerifResetRegistry()
+	for variant, mainSrc := range []string{`custom[{%= v %}]{% include c06-fb-missing %}tail`, `custom[{%= v %}]`, `{% include c06-fb-missing %}`,
+		`custom{% for i := 0; i < 2; i++ %}[{%= i %}{% include c06-fb-missing %}]{% endfor %}`} {
+		dyntpl.VerifResetRegistry()
+		mt, err1, pan1 := parseSafe([]byte(mainSrc), true)
+		ft, err2, pan2 := parseSafe([]byte(`default[{%= v %}]`), true)
+		if err1 != nil || err2 != nil || pan1 != "" || pan2 != "" {
+			r.Internal("fallback-one-lookup: sources do not parse")
+			return
+		}
+		dyntpl.RegisterTplKey("c06-fb-main", mt)
+		dyntpl.RegisterTplKey("c06-fb-dflt", ft)
+		sig := fmt.Sprintf("fallback-one-lookup variant=%d %s", variant, mainSrc)
+		r.Count(sig, true)
+		r.Dist["fallback_one_lookup"]++
+		type res struct{ out, err string }
+		run := func(f func(ctx *dyntpl.Ctx, w *bytes.Buffer) error) (x res) {
+			defer func() {
+				if p := recover(); p != nil {
+					x = res{"", fmt.Sprint("panic: ", p)}
+				}
+			}()
+			ctx := dyntpl.NewCtx()
+			ctx.SetString("v", "bob")
+			var buf bytes.Buffer
+			e := f(ctx, &buf)
+			return res{buf.String(), fmt.Sprint(e)}
+		}
+		plain := run(func(ctx *dyntpl.Ctx, w *bytes.Buffer) error { return dyntpl.Write(w, "c06-fb-main", ctx) })
+		fbW := run(func(ctx *dyntpl.Ctx, w *bytes.Buffer) error { return dyntpl.WriteFallback(w, "c06-fb-main", "c06-fb-dflt", ctx) })
+		fbR := run(func(ctx *dyntpl.Ctx, w *bytes.Buffer) error {
+			b, e := dyntpl.RenderFallback("c06-fb-main", "c06-fb-dflt", ctx)
+			w.Write(b)
+			return e
+		})
+		plainR := run(func(ctx *dyntpl.Ctx, w *bytes.Buffer) error {
+			b, e := dyntpl.Render("c06-fb-main", ctx)
+			w.Write(b)
+			return e
+		})
+		missing := run(func(ctx *dyntpl.Ctx, w *bytes.Buffer) error { return dyntpl.WriteFallback(w, "c06-fb-nosuch", "c06-fb-dflt", ctx) })
+		if fbW != plain || fbR != plainR || missing != (res{"default[bob]", "<nil>"}) {
+			r.Violate(sig, "WriteFallback / RenderFallback with a REGISTERED first key do not return what Write / Render of that key return (the fallback was looked up after the first template had been rendered)",
+				map[string]any{"main_source": mainSrc, "write": plain, "write_fallback": fbW, "render": plainR, "render_fallback": fbR, "first_key_missing": missing})
+		}
+	}
+}
+
+// c06PoolCleanReturn: an object acquired during a render goes back to its pool RESET — reset first, put second: between a
+// Put and a late Reset another goroutine can take the object and have it wiped under its hands. Observed at the pool
+// itself (the harness pool marks objects in use and looks at the mark in Put), on released and on reset contexts.
+func c06PoolCleanReturn(r *Run) {
+	key, err, pan := regTpl(`{%= v|vacquire(4) %}{%= v|vacquire(7) %}{%= v|vgrow(40) %}`, true)
+	if err != nil || pan != "" {
+		r.Internal("pool-clean-return: source does not parse")
+		return
+	}
+	for variant := 0; variant < 2; variant++ {
+		sig := fmt.Sprintf("pool-clean-return variant=%d", variant)
+		r.Count(sig, true)
+		r.Dist["pool_clean_return"]++
+		evReset()
+		ctx := dyntpl.AcquireCtx()
+		ctx.SetString("v", "x")
+		res := renderSafe(key, ctx)
+		if variant == 0 {
+			dyntpl.ReleaseCtx(ctx)
+		} else {
+			ctx.Reset()
+		}
+		log := evStr()
+		evReset()
+		if res.Panic != "" || strings.Contains(log, "dirtyput") || strings.Contains(log, "putbuf40") || !strings.Contains(log, "rel4") || !strings.Contains(log, "rel7") {
+			r.Violate(sig, "an object acquired during a render was handed back to its pool before it was reset (or not at all)",
+				map[string]any{"event_log": log, "panic": res.Panic, "error": res.ErrStr()})
 		}
 	}
 }
